@@ -59,7 +59,7 @@ ASSUMPTIONS = ["exact rational arithmetic (dyadic inputs; Python floats compared
                "Theta: only the wrapped SES share (forecast minus the drift the forecaster reports) is compared with statsmodels",
                "adapters: horizons not earlier than the first observation (statsmodels wraps negative positions)"]
 RULE = ("fixed-order small scope: every (strategy, n<=14, sp<=4, window_length in {None} u 1..n) x (full horizon {-3..9}, every single step, "
-        "random subsets) x (without / with NaN), all non-empty subsets of {-3..9} for 4 configurations (quick: seed-rotated 1/16 resp. 1/64 slice); "
+        "random subsets) x (without / with NaN), all non-empty subsets of {-3..9} for 4 configurations (quick: seed-rotated 1/8 resp. 1/32 slice); "
         "structured random larger cases (n<60, sp<=12); malformed stream; trend values for degree 0..4, design matrices degree 0..5; "
         "5 statsmodels adapters + Theta vs direct statsmodels calls. distinct by driver line; non-trivial = a forecast with at least one finite value")
 LEVEL_TEXT = ("Lean 4 theorems (all series, periods, window lengths, horizons) that the model of NaiveForecaster / PolynomialTrendForecaster / "
@@ -595,7 +595,7 @@ def gen_cases(tier, rng):
     rot = rng.randrange(16)
     for st, n, sp, wl in naive_configs():
         k += 1
-        if not thorough and (k + rot) % 16 != 0:
+        if not thorough and (k + rot) % 8 != 0:
             continue
         fhs = [UNIVERSE] + [[h] for h in UNIVERSE]
         for _ in range(6 if thorough else 4):
@@ -609,11 +609,11 @@ def gen_cases(tier, rng):
     allsub = [list(s) for r in range(1, len(UNIVERSE) + 1) for s in itertools.combinations(UNIVERSE, r)]
     for ci, (st, sp, wl, n) in enumerate(subsets_cfgs):
         for si, fh in enumerate(allsub):
-            if not thorough and (si + rot + ci) % 64 != 0:
+            if not thorough and (si + rot + ci) % 32 != 0:
                 continue
             cases.append(_naive(rng, st, sp, wl, n, fh, nan=rng.random() < 0.2))
     # 3. structured random, larger
-    for _ in range(6000 if thorough else 500):
+    for _ in range(6000 if thorough else 1000):
         st = rng.choice(["last", "mean", "mean", "drift"])
         n = rng.choice([rng.randrange(1, 15), rng.randrange(15, 60)])
         sp = rng.choice([1, rng.randrange(2, 13)])
@@ -649,7 +649,7 @@ def gen_cases(tier, rng):
                     cases.append({"kind": "trend", "degree": deg, "icpt": icpt, "y": _values(rng, n, nan=rng.random() < 0.05),
                                   "origin": rng.choice(ORIGINS), "idx": rng.choice(["range", "int"]), "fh": list(fh),
                                   "rel": rng.random() < 0.7})
-    for _ in range(1500 if thorough else 150):
+    for _ in range(1500 if thorough else 300):
         n = rng.randrange(2, 50)
         deg = rng.choice([0, 1, 1, 1, 2, 3, 4])
         fh = sorted(rng.sample(range(-min(n + 2, 10), 20), rng.randrange(1, 8)))
@@ -667,7 +667,7 @@ def gen_cases(tier, rng):
     cases.append({"kind": "design", "degree": 2, "icpt": True, "n": 4, "origin": 0, "fh": [], "rel": True})
     cases.append({"kind": "design", "degree": 2, "icpt": True, "n": 4, "origin": 0, "fh": [1, 1], "rel": True})
     # 7. statsmodels adapters against a direct statsmodels call
-    for _ in range(700 if thorough else 70):
+    for _ in range(700 if thorough else 120):
         cls = rng.choice(ADAPTERS)
         n = rng.randrange(2 * HW_SP + 8, 40) if cls == "hw" else rng.randrange(10, 40)
         base = rng.randrange(5, 50)
